@@ -183,9 +183,9 @@ MulPairs == IF PairMode = "full" THEN (1..6) \X (1..6)
             ELSE {<<1, 2>>, <<2, 1>>, <<3, 4>>, <<4, 3>>, <<3, 3>>, <<4, 4>>, <<5, 6>>, <<6, 3>>, <<4, 5>>, <<1, 4>>, <<3, 2>>}
 MulOk(x, y, m) ==
     /\ m[2]                                                                   \* no uint32 / uint64 overflow on the way
-    /\ Val(m[1]) % P = (Val(x) * Val(y)) % P                                   \* exact residue
+    /\ Val(m[1]) % P = ((Val(x) % P) * (Val(y) % P)) % P                                   \* exact residue
     /\ \A i \in 0..(NL - 1) : L(m[1], i) >= 0 /\ (i # 1 => L(m[1], i) <= MaskI(i))    \* masked; limb 1 takes the last carry
-    /\ ContractOk(m[1], (Val(x) * Val(y)) % P)                                 \* and the result serialises canonically
+    /\ ContractOk(m[1], ((Val(x) % P) * (Val(y) % P)) % P)                                 \* and the result serialises canonically
 MulExact == pc = "ab" => \A pr \in MulPairs : MulOk(MulOps[pr[1]], MulOps[pr[2]], Mul(MulOps[pr[1]], MulOps[pr[2]]))
 SquareExact == pc = "ab" => \A i \in (IF PairMode = "few" THEN {1, 4} ELSE {1, 3, 4, 5, 6}) : MulOk(MulOps[i], MulOps[i], Square(MulOps[i]))
 \* the in-place doubling of Mul computes exactly the column sums (both operand orders)
